@@ -120,6 +120,37 @@ var elemTypes = map[string]reflect.Type{
 	"float32": reflect.TypeOf(float32(0)), "float64": reflect.TypeOf(float64(0)), "string": reflect.TypeOf(""), "json.Number": reflect.TypeOf(json.Number("")), "bool": reflect.TypeOf(false),
 }
 
+// A caller may build every list it hands to the library in buffers it reuses from one call to the next (the
+// library must not keep a caller's slice beyond the call, nor tell lists apart by where they live).  With
+// callerReusesBuffers set, the k-th typed list of a given type and length inside one document / assignment is
+// materialised in the same backing array as the k-th such list of the previous document / assignment.
+var (
+	callerReusesBuffers bool
+	callerBufs          = map[string]reflect.Value{}
+	callerBufUse        = map[string]int{}
+)
+
+func newCallerObject() { // a new document or assignment starts: its lists may reuse the buffers of the previous one
+	for k := range callerBufUse {
+		delete(callerBufUse, k)
+	}
+}
+
+func callerSlice(t string, st reflect.Type, n int) reflect.Value {
+	if !callerReusesBuffers || n == 0 {
+		return reflect.MakeSlice(st, n, n)
+	}
+	base := fmt.Sprintf("%s/%d", t, n)
+	key := fmt.Sprintf("%s#%d", base, callerBufUse[base])
+	callerBufUse[base]++
+	if s, ok := callerBufs[key]; ok {
+		return s
+	}
+	s := reflect.MakeSlice(st, n, n+2) // spare capacity, as append-built buffers have
+	callerBufs[key] = s
+	return s
+}
+
 type otherStruct struct{ A int }
 
 // Value rebuilds the Go value.
@@ -142,7 +173,7 @@ func (tv TV) Value() interface{} {
 		if tv.Nil {
 			return reflect.Zero(st).Interface()
 		}
-		s := reflect.MakeSlice(st, len(tv.L), len(tv.L))
+		s := callerSlice(tv.T, st, len(tv.L))
 		for i, e := range tv.L {
 			s.Index(i).Set(reflect.ValueOf(e.scalar()))
 		}
